@@ -1,15 +1,187 @@
 package main
 
 import (
+	"encoding/json"
+	"flag"
 	"fmt"
-	"golang.org/x/tools/go/packages"
-	"golang.org/x/tools/go/ssa"
-	"golang.org/x/tools/go/ssa/ssautil"
+	"os"
+	"os/exec"
+	"path/filepath"
+	"runtime"
+	"sort"
+	"strings"
+	"time"
 )
 
+type VerifyReport struct {
+	Property  string        `json:"property"`
+	Tier      string        `json:"tier"`
+	Funcs     []*FuncReport `json:"functions"`
+	Obls      []*OblResult  `json:"obligations"`
+	LoadSecs  float64       `json:"load_secs"`
+	TotalSecs float64       `json:"total_secs"`
+	Axioms    int           `json:"axioms"`
+	Errors    []string      `json:"errors,omitempty"`
+}
+
 func main() {
-	_ = packages.Load
-	_ = ssa.GlobalDebug
-	_ = ssautil.AllPackages
-	fmt.Println("ok")
+	if len(os.Args) < 2 {
+		fmt.Fprintln(os.Stderr, "usage: govc verify|check|selftest ...")
+		os.Exit(2)
+	}
+	switch os.Args[1] {
+	case "verify":
+		cmdVerify(os.Args[2:])
+	case "check":
+		cmdCheck(os.Args[2:])
+	case "bvlemmas":
+		ok, out := proveBVLemmas()
+		fmt.Print(out)
+		if !ok {
+			os.Exit(1)
+		}
+	default:
+		fmt.Fprintln(os.Stderr, "unknown subcommand")
+		os.Exit(2)
+	}
+}
+
+// contractPackages scans the repository for contract files that mention the property tag and returns package patterns.
+func contractPackages(repo, prop string) ([]string, error) {
+	var pats []string
+	err := filepath.Walk(repo, func(p string, info os.FileInfo, err error) error {
+		if err != nil {
+			return nil
+		}
+		if info.IsDir() && (info.Name() == ".git" || info.Name() == "node_modules") {
+			return filepath.SkipDir
+		}
+		if info.Name() != "zz_verif_contracts.go" {
+			return nil
+		}
+		b, err := os.ReadFile(p)
+		if err != nil {
+			return nil
+		}
+		if prop == "" || strings.Contains(string(b), "@"+prop) {
+			pats = append(pats, filepath.Dir(p))
+		}
+		return nil
+	})
+	sort.Strings(pats)
+	return pats, err
+}
+
+func gitStatus(repo string) string {
+	out, _ := exec.Command("git", "-C", repo, "status", "--porcelain").Output()
+	return string(out)
+}
+
+func runVerify(repo, prop, tier string, funcs []string, speclib string) (*VerifyReport, error) {
+	t0 := time.Now()
+	rep := &VerifyReport{Property: prop, Tier: tier}
+	dirs, err := contractPackages(repo, prop)
+	if err != nil {
+		return nil, err
+	}
+	if len(dirs) == 0 {
+		return nil, fmt.Errorf("no contract file in %s mentions @%s", repo, prop)
+	}
+	before := gitStatus(repo)
+	e, cleanup, err := loadEngine(repo, dirs, speclib)
+	if err != nil {
+		return nil, err
+	}
+	defer cleanup()
+	rep.LoadSecs = time.Since(t0).Seconds()
+	rep.Axioms = e.axiomCount
+	rep.Errors = append(rep.Errors, e.axiomErrors...)
+	cfg := &RunCfg{Tier: tier, PerCheckMs: 20000, Workers: runtime.NumCPU()}
+	if tier == "thorough" {
+		cfg.PerCheckMs = 120000
+		cfg.Second = true
+	}
+	var keys []string
+	for k, fc := range e.contracts {
+		if fc.File == "" || !strings.HasSuffix(fc.File, "zz_verif_contracts.go") {
+			continue
+		}
+		if fc.Trusted {
+			continue
+		}
+		if len(funcs) > 0 {
+			ok := false
+			for _, f := range funcs {
+				if strings.Contains(k, f) {
+					ok = true
+				}
+			}
+			if !ok {
+				continue
+			}
+		} else if prop != "" && !fc.Tags[prop] {
+			continue
+		}
+		keys = append(keys, k)
+	}
+	sort.Strings(keys)
+	for _, k := range keys {
+		fr := e.verifyFunc(e.contracts[k], cfg)
+		rep.Funcs = append(rep.Funcs, fr)
+		rep.Obls = append(rep.Obls, fr.Obligations...)
+	}
+	if after := gitStatus(repo); after != before {
+		rep.Errors = append(rep.Errors, "the check modified the repository working tree: "+after)
+	}
+	rep.TotalSecs = time.Since(t0).Seconds()
+	return rep, nil
+}
+
+func cmdVerify(args []string) {
+	fs := flag.NewFlagSet("verify", flag.ExitOnError)
+	repo := fs.String("repo", "/repo", "repository root")
+	prop := fs.String("prop", "", "property id")
+	tier := fs.String("tier", "quick", "quick|thorough")
+	fn := fs.String("func", "", "comma-separated substrings of function keys")
+	speclib := fs.String("speclib", "/verif/speclib", "spec library dir")
+	out := fs.String("out", "", "write JSON report here")
+	verbose := fs.Bool("v", false, "verbose")
+	fs.Parse(args)
+	var funcs []string
+	if *fn != "" {
+		funcs = strings.Split(*fn, ",")
+	}
+	rep, err := runVerify(*repo, *prop, *tier, funcs, *speclib)
+	if err != nil {
+		fmt.Fprintln(os.Stderr, "govc:", err)
+		os.Exit(2)
+	}
+	bad := 0
+	for _, o := range rep.Obls {
+		mark := "ok  "
+		if o.Status == "failed" || o.Status == "undecided" {
+			mark = "FAIL"
+			bad++
+		}
+		if *verbose || mark == "FAIL" {
+			fmt.Printf("%s %-10s %s [%s %s %.2fs paths=%d] %s\n", mark, o.Status, o.Name, o.Solver, o.Answer, o.Secs, o.Paths, o.Clause)
+			if o.Model != "" && mark == "FAIL" {
+				fmt.Println("     model: " + strings.ReplaceAll(strings.TrimSpace(o.Model), "\n", "\n            "))
+			}
+		}
+	}
+	for _, f := range rep.Funcs {
+		fmt.Printf("func %s: %d obligations, %d paths, %d feasible returns, unsupported=%v\n", f.Key, len(f.Obligations), f.Paths, f.ReturnPaths, f.Unsupported)
+		if *verbose {
+			fmt.Printf("   inlined=%v\n   specs=%v\n   havocked=%v\n   abstracted=%v\n", f.Inlined, f.Specs, f.Havocked, f.Abstracted)
+		}
+	}
+	fmt.Printf("total: %d obligations, %d not discharged, load %.1fs total %.1fs, errors=%v\n", len(rep.Obls), bad, rep.LoadSecs, rep.TotalSecs, rep.Errors)
+	if *out != "" {
+		b, _ := json.MarshalIndent(rep, "", " ")
+		os.WriteFile(*out, b, 0o644)
+	}
+	if bad > 0 {
+		os.Exit(1)
+	}
 }
